@@ -174,11 +174,48 @@ int main(void) {
         } else if (!strcmp(op, "bufless")) {
             /* bufless <cap> <hex> : ZSTD_decompressBegin / nextSrcSizeToDecompress / decompressContinue */
             size_t cap = (size_t)strtoull(strtok(NULL, " "), NULL, 10), n; unsigned char* in = zv_unhex(strtok(NULL, " "), &n);
-            unsigned char* out = (unsigned char*)malloc(cap ? cap : 1); size_t ip = 0, op_ = 0, r = ZSTD_decompressBegin(dctx); int steps = 0;
-            while (!ZSTD_isError(r) && steps++ < 1000000) { size_t want = ZSTD_nextSrcSizeToDecompress(dctx); if (want == 0) break; if (want > n - ip) { r = (size_t)-ZSTD_error_srcSize_wrong; break; }
-                r = ZSTD_decompressContinue(dctx, out + op_, cap - op_, in + ip, want); ip += want; if (!ZSTD_isError(r)) op_ += r; }
+            unsigned char* out = (unsigned char*)malloc(cap ? cap : 1); size_t ip = 0, op_ = 0, r = 0; int steps = 0;
+            do {   /* the buffer-less API decodes one frame per ZSTD_decompressBegin */
+                r = ZSTD_decompressBegin(dctx);
+                while (!ZSTD_isError(r) && steps++ < 1000000) { size_t want = ZSTD_nextSrcSizeToDecompress(dctx); if (want == 0) break; if (want > n - ip) { r = (size_t)-ZSTD_error_srcSize_wrong; break; }
+                    r = ZSTD_decompressContinue(dctx, out + op_, cap - op_, in + ip, want); ip += want; if (!ZSTD_isError(r)) op_ += r; }
+            } while (!ZSTD_isError(r) && ip < n && steps < 1000000);
             if (ZSTD_isError(r)) printf("err %s\n", zv_errclass(r)); else printf("ok %zu %016llx consumed=%zu\n", op_, (unsigned long long)XXH64(out, op_, 0), ip);
             ZSTD_DCtx_reset(dctx, ZSTD_reset_session_only); free(in); free(out);
+        } else if (!strcmp(op, "decso")) {
+            /* decso <cap> <hex> <in-chunks csv> : ZSTD_decompressStream with ZSTD_d_stableOutBuffer (one fixed output buffer) */
+            size_t cap = (size_t)strtoull(strtok(NULL, " "), NULL, 10), n; unsigned char* in = zv_unhex(strtok(NULL, " "), &n); char* ins = strtok(NULL, " ");
+            size_t ic[64]; int ni = 0, ii = 0, calls = 0, idle = 0; char* sv; char* t; unsigned char* out = (unsigned char*)malloc(cap ? cap : 1); size_t consumed = 0, r = 1; ZSTD_outBuffer ob;
+            for (t = strtok_r(ins, ",", &sv); t && ni < 64; t = strtok_r(NULL, ",", &sv)) ic[ni++] = (size_t)strtoull(t, NULL, 10);
+            ZSTD_DCtx_reset(dctx, ZSTD_reset_session_and_parameters); ZSTD_DCtx_setParameter(dctx, ZSTD_d_stableOutBuffer, 1);
+            ob.dst = out; ob.size = cap; ob.pos = 0;
+            while (calls++ < 2000000) { size_t isz = ic[ii++ % ni]; ZSTD_inBuffer ib; size_t before = ob.pos; if (isz > n - consumed) isz = n - consumed; ib.src = in + consumed; ib.size = isz; ib.pos = 0;
+                r = ZSTD_decompressStream(dctx, &ob, &ib); if (ZSTD_isError(r)) break; consumed += ib.pos;
+                if (ib.pos == 0 && ob.pos == before) { if (consumed == n) { if (++idle >= 2) break; } else if (++idle > 40) break; } else idle = 0; }
+            if (ZSTD_isError(r)) printf("err %s\n", zv_errclass(r)); else printf("ok %zu %016llx\n", ob.pos, (unsigned long long)XXH64(out, ob.pos, 0));
+            ZSTD_DCtx_reset(dctx, ZSTD_reset_session_and_parameters); free(in); free(out);
+        } else if (!strcmp(op, "decdd")) {
+            /* decdd <mode c|s|w|b> <cap> <hex-frame> <hex-dict> <in-chunks> <out-chunks> : cold one-shot / cold stream / warm stream / cold buffer-less with a DDict */
+            char mode = strtok(NULL, " ")[0]; size_t cap = (size_t)strtoull(strtok(NULL, " "), NULL, 10), n, dn; unsigned char* in = zv_unhex(strtok(NULL, " "), &n);
+            unsigned char* d = zv_unhex(strtok(NULL, " "), &dn); char* ins = strtok(NULL, " "); char* outs = strtok(NULL, " ");
+            size_t ic[64], oc[64]; int ni = 0, no = 0; char* sv; char* t; unsigned char* out = (unsigned char*)malloc(cap ? cap : 1); size_t r = 0, produced = 0; int pass;
+            ZSTD_DDict* dd = ZSTD_createDDict(d, dn); ZSTD_DCtx* dc = ZSTD_createDCtx();
+            for (t = strtok_r(ins, ",", &sv); t && ni < 64; t = strtok_r(NULL, ",", &sv)) ic[ni++] = (size_t)strtoull(t, NULL, 10);
+            for (t = strtok_r(outs, ",", &sv); t && no < 64; t = strtok_r(NULL, ",", &sv)) oc[no++] = (size_t)strtoull(t, NULL, 10);
+            if (!dd) { printf("err ddict-null\n"); }
+            else if (mode == 'c') { r = ZSTD_decompress_usingDDict(dc, out, cap, in, n, dd); produced = r; }
+            else if (mode == 'b') { size_t ip = 0; r = ZSTD_decompressBegin_usingDDict(dc, dd); while (!ZSTD_isError(r)) { size_t want = ZSTD_nextSrcSizeToDecompress(dc); if (!want) break; if (want > n - ip) { r = (size_t)-ZSTD_error_srcSize_wrong; break; }
+                    r = ZSTD_decompressContinue(dc, out + produced, cap - produced, in + ip, want); ip += want; if (!ZSTD_isError(r)) produced += r; } if (!ZSTD_isError(r)) r = produced; }
+            else for (pass = 0; pass < (mode == 'w' ? 2 : 1); pass++) { size_t consumed = 0; int ii = 0, oi = 0, idle = 0, calls = 0; produced = 0;
+                ZSTD_DCtx_reset(dc, ZSTD_reset_session_only); ZSTD_DCtx_refDDict(dc, dd);
+                while (calls++ < 2000000) { size_t isz = ic[ii++ % ni], osz = oc[oi++ % no]; ZSTD_inBuffer ib; ZSTD_outBuffer ob;
+                    if (isz > n - consumed) isz = n - consumed; if (osz > cap - produced) osz = cap - produced;
+                    ib.src = in + consumed; ib.size = isz; ib.pos = 0; ob.dst = out + produced; ob.size = osz; ob.pos = 0;
+                    r = ZSTD_decompressStream(dc, &ob, &ib); if (ZSTD_isError(r)) break; consumed += ib.pos; produced += ob.pos;
+                    if (ib.pos == 0 && ob.pos == 0) { if (consumed == n) { if (++idle >= 2) break; } else if (++idle > 40) break; } else idle = 0; }
+                if (ZSTD_isError(r)) break; r = produced; }
+            if (dd) { if (ZSTD_isError(r)) printf("err %s\n", zv_errclass(r)); else printf("ok %zu %016llx\n", produced, (unsigned long long)XXH64(out, produced, 0)); }
+            ZSTD_freeDCtx(dc); ZSTD_freeDDict(dd); free(in); free(out); free(d);
         } else if (!strcmp(op, "cbound")) {
             unsigned long long n = strtoull(strtok(NULL, " "), NULL, 10); size_t b = ZSTD_compressBound((size_t)n); if (ZSTD_isError(b)) printf("E\n"); else printf("%llu\n", (unsigned long long)b);
         } else if (!strcmp(op, "ccap")) {
